@@ -205,6 +205,11 @@ func (rb *Rebalancer) UpsertServer(u *url.URL, options ...ServerOption) error {
 	rb.mtx.Lock()
 	defer rb.mtx.Unlock()
 
+	if s, i := rb.findServer(u); i != -1 {
+		// The balancer may currently hold an adjusted weight for this server: the options
+		// apply to the configured weight, and so does the weight read back below.
+		_ = rb.next.UpsertServer(u, Weight(s.origWeight))
+	}
 	if err := rb.next.UpsertServer(u, options...); err != nil {
 		return err
 	}
